@@ -71,16 +71,15 @@ def norm_crystal(c):
 
 
 def norm_molecule(m):
-    props = {}
-    for k in MOL_PROPS:
-        if k in m.properties:
-            props[k] = norm(m.properties[k])
+    props = {str(k): norm(v) for k, v in m.properties.items()}
     out = {
         "__mol__": 1,
         "numbers": _arr(m.atomic_numbers),
         "positions": _arr(m.positions),
         "labels": [str(x) for x in m.labels],
         "props": props,
+        "charge": norm(getattr(m, "charge", None)),
+        "multiplicity": norm(getattr(m, "multiplicity", None)),
     }
     if getattr(m, "bonds", None) is not None:
         out["bonds"] = _sparse(m.bonds)
